@@ -89,7 +89,9 @@ ASSUMPTIONS = ["non-negative weights (the statement's quantifier)", "agreement m
 RULE = ("random polylines / oriented manifold surfaces / tet meshes (vlib.gen.mesh, incl. disconnected; 5% with integer coordinates "
         "handed over as ints), random start (int or numpy integer), targets as int / numpy integer / list / set / tuple / ndarray incl. "
         "start itself, duplicated targets, all vertices, singleton sets, start inside the set, border query; weights one / length / "
-        "dict / Attribute with float, Python-int, numpy-int and fractional (k/4) values incl. zero-weight ties; 20% of the cases run 1-3 "
+        "dict / Attribute with float, Python-int, numpy-int and fractional (k/4) values incl. zero-weight ties, and dict values that are NARROW "
+        "numpy integer scalars (uint8 / int8 / int16 / uint16) whose sums along a path leave the range of the dtype (family "
+        "narrow-int-weights on 6..8 x 6..8 grids: 4%); 20% of the cases run 1-3 "
         "earlier queries on the SAME mesh object first (histories); 12% of the meshes carry an edge attribute named 'length' (stored by an "
         "earlier edge_length() call and stale after 1-3 vertex moves, or holding arbitrary values): lengths are judged on the geometry at the "
         "time of the query; optional path polyline. Non-trivial = distinct case, "
@@ -106,7 +108,8 @@ def _gen_query(rng, mesh):
     w = rng.choice(["one", "length", "length", "dict", "attr"])
     q = {"start": start, "w": w, "wseed": rng.randrange(1000), "export": rng.random() < 0.25}
     if w in ("dict", "attr"):
-        q["wkind"] = rng.choice(["float", "float", "int", "frac", "npint"] if w == "dict" else ["float", "float", "int", "frac"])
+        q["wkind"] = rng.choice(["float", "float", "int", "frac", "npint", "np_uint8", "np_int8", "np_int16", "np_uint16"] if w == "dict"
+                                else ["float", "float", "int", "frac"])
     if rng.random() < 0.12: q["srep"] = "npint"
     if r < 0.5:
         q["q"] = "sp"
@@ -189,9 +192,35 @@ def _last_near_start(rng, mesh):
     return dict(q, mesh=mesh)
 
 
+def _narrow_weights(rng):
+    """family `narrow-int-weights`: a flat grid (6..8 x 6..8), weights given as a dict of NARROW numpy integer scalars whose sums
+    along a path leave the range of the dtype; start in one corner region, targets far away (point-to-point, set or border query)"""
+    from vlib.gen import mesh as G
+    nu, nv = rng.randint(6, 8), rng.randint(6, 8)
+    V, F = G.grid(rng, nu, nv, tri=rng.random() < 0.5, jitter=False, flat=True)
+    mesh = {"kind": "surface", "V": V, "F": F, "tag": f"grid{nu}x{nv}+narrow"}
+    n = len(V)
+    start = rng.choice([0, nv - 1, n - 1, n - nv, rng.randrange(n)])
+    hops = H.bfs_hops(n, H.edges_of(mesh), start)
+    far = sorted(range(n), key=lambda v: -(hops[v] or 0))
+    q = {"start": start, "w": "dict", "wkind": rng.choice(sorted(NARROW)), "wseed": rng.randrange(1000), "export": False,
+         "family": "narrow-int-weights"}
+    r = rng.random()
+    if r < 0.6:
+        k = rng.choice([1, 1, 2, 3])
+        q.update(q="sp", targets=[rng.choice(far[:10]) for _ in range(k)], tform="list" if k > 1 else rng.choice(["int", "list"]))
+    elif r < 0.85:
+        q.update(q="set", targets=sorted({rng.choice(far[:8]) for _ in range(rng.choice([1, 2, 3]))}), tform="list")
+    else:
+        q.update(q="sp", targets=list(range(n)), tform="list")
+    return dict(q, mesh=mesh)
+
+
 def cases(rng, tier):
     n = 4000 if tier == "quick" else 12000
     for i in range(n):
+        if rng.random() < 0.04:
+            yield _narrow_weights(rng); continue
         mesh = _int_mesh(rng) if rng.random() < 0.05 else H.gen_mesh(rng, tier)
         if rng.random() < 0.08:
             c = _last_near_start(rng, mesh)
@@ -240,9 +269,17 @@ def _targets_arg(case):
     return list(ts)
 
 
+# narrow numpy integer dtypes for caller-supplied weights: (lowest weight, number of different weights); a path of a few edges already
+# has a total beyond the range of the dtype (uint8: 255, int8: 127, int16: 32767, uint16: 65535) — the exact sums are what counts
+NARROW = {"np_uint8": (10, 31), "np_int8": (10, 31), "np_int16": (3000, 6001), "np_uint16": (5000, 15001)}
+
+
 def _custom_weight(a, b, q):
     """exact custom weight of edge {a,b} for a query description (shared by harness and oracle)"""
     if q.get("wkind") == "frac": return Fraction(H.hash_weight(a, b, q["wseed"], 9), 4)
+    if str(q.get("wkind", "")).startswith("np_"):
+        lo, span = NARROW[q["wkind"]]
+        return Fraction(lo + H.hash_weight(a, b, q["wseed"], span))
     return Fraction(H.hash_weight(a, b, q["wseed"]))
 
 
@@ -256,12 +293,43 @@ def _weights_arg(m, edges, q, name):
         return "length", [Fraction(float(M.geometry.distance(m.vertices[a], m.vertices[b]))) for a, b in edges]
     wl = [_custom_weight(a, b, q) for a, b in edges]
     kind = q.get("wkind", "float")
-    conv = {"float": float, "frac": float, "int": int, "npint": lambda x: np.int64(int(x))}[kind]
+    if kind.startswith("np_"):
+        ty = np.dtype(kind[3:]).type
+        conv = lambda x: ty(int(x))
+    else:
+        conv = {"float": float, "frac": float, "int": int, "npint": lambda x: np.int64(int(x))}[kind]
     if wmode == "dict":
         return {e: conv(wl[e]) for e in range(len(edges))}, wl
     attr = m.edges.create_attribute(name, int if kind == "int" else float, dense=(q["wseed"] % 2 == 0))
     for e in range(len(edges)): attr[e] = conv(wl[e])
     return attr, wl
+
+
+class _NoReturn(BaseException):
+    """raised by the CPU-time limit of one implementation call (a BaseException: `except Exception` in the implementation cannot swallow it)"""
+
+
+class _cpu_limit:
+    """CPU-time limit for ONE call of the implementation (ITIMER_VIRTUAL: user CPU seconds of this process, so machine load cannot
+    trigger it; it does not touch the wall-clock alarm of vlib/core.py). A query takes milliseconds on the unchanged tree; a call that
+    burns CPU_LIMIT seconds is reported as `err:DoesNotReturn` (and is stopped before its lists eat the memory of the machine)."""
+    CPU_LIMIT = 3.0
+
+    def __enter__(self):
+        import signal, threading
+        self.on = threading.current_thread() is threading.main_thread() and hasattr(signal, "ITIMER_VIRTUAL")
+        if self.on:
+            def _h(signum, frame): raise _NoReturn()
+            self.old = signal.signal(signal.SIGVTALRM, _h)
+            signal.setitimer(signal.ITIMER_VIRTUAL, self.CPU_LIMIT)
+        return self
+
+    def __exit__(self, *a):
+        if self.on:
+            import signal
+            signal.setitimer(signal.ITIMER_VIRTUAL, 0)
+            signal.signal(signal.SIGVTALRM, self.old)
+        return False
 
 
 def _call(m, edges, q, name):
@@ -272,12 +340,17 @@ def _call(m, edges, q, name):
     start = np.int64(q["start"]) if q.get("srep") == "npint" else q["start"]
     out = {}
     try:
-        if q["q"] == "sp":
-            res = P.shortest_path(m, start, _targets_arg(q), weights=weights, export_path_mesh=q["export"])
-        elif q["q"] == "set":
-            res = P.shortest_path_to_vertex_set(m, start, _targets_arg(q), weights=weights, export_path_mesh=q["export"])
-        else:
-            res = P.shortest_path_to_border(m, start, weights=weights, export_path_mesh=q["export"])
+        with _cpu_limit():
+            if q["q"] == "sp":
+                res = P.shortest_path(m, start, _targets_arg(q), weights=weights, export_path_mesh=q["export"])
+            elif q["q"] == "set":
+                res = P.shortest_path_to_vertex_set(m, start, _targets_arg(q), weights=weights, export_path_mesh=q["export"])
+            else:
+                res = P.shortest_path_to_border(m, start, weights=weights, export_path_mesh=q["export"])
+    except _NoReturn:
+        out["r"] = "err:DoesNotReturn"
+        out["msg"] = f"the call used more than {_cpu_limit.CPU_LIMIT:.0f} s of CPU time (milliseconds on the unchanged tree)"
+        return out, wl
     except Exception as e:  # noqa
         out["r"] = H.exc_token(e)
         out["msg"] = str(e)[:80]
